@@ -564,12 +564,77 @@ theorem tail_headIs_align (w p : Option Nat) (r : Option Repr') :
 
 /-! ## format options: `parse (render o) = o` -/
 
+theorem tail_no_align (w p : Option Nat) (r : Option Repr') :
+    ∀ x ∈ tailText w p r, isAlignCh x = false := by
+  intro x hx
+  simp only [tailText, wText, pText, List.mem_append] at hx
+  rcases hx with (hx | hx) | hx
+  · cases w with
+    | none => simp [optStr] at hx
+    | some n =>
+      simp only [Option.map_some, optStr] at hx
+      exact isDigit_not_align x (digitsAux_isDigit (n + 1) n x hx)
+  · cases p with
+    | none => simp [optStr] at hx
+    | some q =>
+      simp only [Option.map_some, optStr, List.mem_cons] at hx
+      rcases hx with hx | hx
+      · subst hx; decide
+      · exact isDigit_not_align x (digitsAux_isDigit (q + 1) q x hx)
+  · cases r with
+    | none => simp [reprText] at hx
+    | some r =>
+      obtain ⟨rc, h, _, ha, _⟩ := reprStr_spec r
+      simp [h] at hx
+      subst hx
+      exact ha
+
+theorem preCheck_none (s : List Nat) (g1 g2 : Nat) (h : ∀ a, s[g1]? = some a → isAlignCh a = false) :
+    preCheck s g1 g2 = none := by
+  unfold preCheck
+  split
+  · cases hs : s[g1]? with
+    | none => rfl
+    | some a => simp [h a hs]
+  · rfl
+
+theorem preCheck_none_cons (c : Nat) (l : List Nat) (g1 g2 : Nat)
+    (h : ∀ x ∈ l, isAlignCh x = false) : preCheck (c :: l) g1 g2 = none := by
+  cases g1 with
+  | zero => simp [preCheck]
+  | succ k =>
+    apply preCheck_none
+    intro a ha
+    simp only [List.getElem?_cons_succ] at ha
+    exact h a (List.mem_of_getElem? ha)
+
+/-- a single-character fill in front of an alignment: the new check either takes exactly that fill
+(first cluster = the character, second = the alignment character) or does not fire -/
+theorem preCheck_fill1 (c ac : Nat) (T : List Nat) (g1 g2 : Nat) (hac : isAlignCh ac = true)
+    (h : ∀ x ∈ T, isAlignCh x = false) :
+    preCheck (c :: ac :: T) g1 g2 = some ({ fill := some [c], align := alignOf ac }, T)
+      ∨ preCheck (c :: ac :: T) g1 g2 = none := by
+  match g1 with
+  | 0 => right; simp [preCheck]
+  | 1 =>
+    by_cases hg2 : g2 = 1
+    · left; subst hg2; simp [preCheck, hac]
+    · right
+      have : (g2 == 1) = false := by simp [hg2]
+      simp [preCheck, this]
+  | k + 2 =>
+    right
+    apply preCheck_none
+    intro a ha
+    simp only [List.getElem?_cons_succ] at ha
+    exact h a (List.mem_of_getElem? ha)
+
 theorem render_eq (o : Opts) :
     render o = optStr o.fill ++ alignStr o.align ++ tailText o.minWidth o.precision o.repr := by
   simp [render, tailText, wText, pText]
 
-theorem roundtrip (o : Opts) (g : Nat) (hwf : WF o) (hg : GraphemeOk o g) :
-    parse (render o) g = .ok o := by
+theorem roundtrip (o : Opts) (g g2 : Nat) (hwf : WF o) (hg : GraphemeOk o g g2) :
+    parse (render o) g g2 = .ok o := by
   obtain ⟨align, w, p, fill, r⟩ := o
   simp only [WF, wf, Bool.and_eq_true] at hwf
   obtain ⟨⟨hw, hp⟩, hfill⟩ := hwf
@@ -584,17 +649,22 @@ theorem roundtrip (o : Opts) (g : Nat) (hwf : WF o) (hg : GraphemeOk o g) :
       loop (optStr fill ++ alignStr align ++ tailText w p r) g f pos o (tailText w p r)
         = .ok { o with minWidth := w, precision := p, repr := r } :=
     fun pos o f hf hpos h1 h2 h3 => loop_tail _ g w p r pos o f hf hwb hpb hpos h1 h2 h3
+  have hTall : ∀ x ∈ tailText w p r, isAlignCh x = false := tail_no_align w p r
   rw [render_eq]
-  simp only [parse]
   generalize hT : tailText w p r = T at *
   cases fill with
   | none =>
     by_cases ha : align = .default
     · subst ha
       simp only [optStr, alignStr, List.nil_append] at htl ⊢
+      have hpc : preCheck T g g2 = none :=
+        preCheck_none T g g2 (fun a ha => hTall a (List.mem_of_getElem? ha))
+      simp only [parse, hpc]
       rw [htl .start {} _ hit (Or.inl rfl) rfl rfl rfl]
     · obtain ⟨ac, hs, hac, hao⟩ := alignStr_spec align ha
       simp only [optStr, hs, List.nil_append, List.cons_append, List.length_cons] at htl ⊢
+      have hpc : preCheck (ac :: T) g g2 = none := preCheck_none_cons ac T g g2 hTall
+      simp only [parse, hpc, List.length_cons]
       rw [loop_step _ _ _ _ _ _ _ _ _ _ (step_align _ g ac _ .start {} hac (Or.inr ⟨rfl, hta⟩))]
       rw [htl .minWidth _ _ hit (Or.inr rfl) rfl rfl rfl, hao]
   | some fl =>
@@ -615,6 +685,8 @@ theorem roundtrip (o : Opts) (g : Nat) (hwf : WF o) (hg : GraphemeOk o g) :
             simp [tailText, wText, optStr, he', headIs, isDigit_add m hm]
           simp only [optStr, alignStr, List.append_nil, List.cons_append, List.nil_append,
             List.length_cons] at htl ⊢
+          have hpc : preCheck (48 :: T) g g2 = none := preCheck_none_cons 48 T g g2 hTall
+          simp only [parse, hpc, List.length_cons]
           rw [loop_step _ _ _ _ _ _ _ _ _ _ (step_zero _ g _ {} hta hrd)]
           rw [htl .minWidth _ _ hit (Or.inr rfl) rfl rfl rfl]
         · have hc' : (c == 48) = false := by simp [hc]
@@ -624,60 +696,74 @@ theorem roundtrip (o : Opts) (g : Nat) (hwf : WF o) (hg : GraphemeOk o g) :
           have hT0 : T = [] := by rw [← hT]; rfl
           subst hT0
           simp only [optStr, alignStr, List.append_nil, List.length_cons, List.length_nil]
+          have hpc : preCheck [c] g g2 = none := preCheck_none_cons c [] g g2 (by simp)
+          simp only [parse, hpc, List.length_cons, List.length_nil]
           have hgen := step_generic [c] g c [] {} hpl (by simp [headIs]) (by simp)
           rw [loop_step _ _ _ _ _ _ _ _ _ _ hgen]
           obtain ⟨k, hk⟩ : ∃ k, max g 1 = k + 1 := ⟨max g 1 - 1, by omega⟩
           simp [hk, loop_nil]
       · obtain ⟨ac, hs, hac, hao⟩ := alignStr_spec align ha
         simp only [optStr, hs, List.cons_append, List.nil_append, List.length_cons] at htl ⊢
-        rw [loop_step _ _ _ _ _ _ _ _ _ _ (step_fill1 _ g c ac _ {} hac)]
-        rw [htl .minWidth _ _ (by omega) (Or.inr rfl) rfl rfl rfl, hao]
+        rcases preCheck_fill1 c ac T g g2 hac hTall with hpc | hpc
+        · -- the new check takes the fill
+          simp only [parse, hpc, List.length_cons]
+          rw [htl .minWidth _ _ (by omega) (Or.inr rfl) rfl rfl rfl, hao]
+        · simp only [parse, hpc, List.length_cons]
+          rw [loop_step _ _ _ _ _ _ _ _ _ _ (step_fill1 _ g c ac _ {} hac)]
+          rw [htl .minWidth _ _ (by omega) (Or.inr rfl) rfl rfl rfl, hao]
     | c :: d :: t, hfill, hg =>
-      simp only [Bool.and_eq_true, Bool.or_eq_true, Bool.not_eq_true', bne_iff_ne, ne_eq,
-        Option.isNone_iff_eq_none] at hfill
-      obtain ⟨⟨⟨hpl, hc46⟩, hda⟩, hrest⟩ := hfill
-      have hg' : g = t.length + 2 := by
+      have hg' : g = t.length + 2 ∧ (align = .default ∨ g2 = 1) := by
         simpa [GraphemeOk, graphemeOk] using hg
-      have hmax : max g 1 = (c :: d :: t).length := by simp [hg']
-      have hdot : (c == 46 && !(d :: (t ++ (alignStr align ++ T))).isEmpty) = false := by
-        simp [hc46]
-      have hgen := step_generic ((c :: d :: t) ++ alignStr align ++ T) g c
-        (d :: (t ++ (alignStr align ++ T))) {} hpl (by simpa [headIs] using hda) hdot
-      rw [hmax] at hgen
-      have htake : ((c :: d :: t) ++ alignStr align ++ T).take (c :: d :: t).length
-          = c :: d :: t := by
-        rw [List.append_assoc, List.take_left']
-        rfl
-      have hdrop : ((c :: d :: t) ++ alignStr align ++ T).drop (c :: d :: t).length
-          = alignStr align ++ T := by
-        rw [List.append_assoc, List.drop_left']
-        rfl
-      rw [htake, hdrop] at hgen
-      simp only [optStr] at htl ⊢
-      have hlen : ((c :: d :: t) ++ alignStr align ++ T).length
-          = (t.length + (alignStr align).length + T.length + 1) + 1 := by
-        simp only [List.length_append, List.length_cons]; omega
-      have hcons : (c :: d :: t) ++ alignStr align ++ T
-          = c :: (d :: (t ++ (alignStr align ++ T))) := by simp
-      rw [hlen]
-      conv => lhs; arg 6; rw [hcons]
-      rw [loop_step _ _ _ _ _ _ _ _ _ _ hgen]
+      obtain ⟨hg1, hg2⟩ := hg'
       by_cases ha : align = .default
-      · subst ha
-        have hwp : w = none ∧ p = none ∧ r = none := by
-          rcases hrest with h | h
-          · exact absurd rfl h
-          · exact ⟨h.1.1, h.1.2, h.2⟩
-        obtain ⟨hw0, hp0, hr0⟩ := hwp
+      · -- a lone cluster: the per-character arms, as before
+        subst ha
+        simp only [bne_self_eq_false, Bool.false_eq_true, if_false, Bool.and_eq_true,
+          Bool.not_eq_true', bne_iff_ne, ne_eq, Option.isNone_iff_eq_none] at hfill
+        obtain ⟨⟨⟨⟨⟨hpl, hc46⟩, hda⟩, hw0⟩, hp0⟩, hr0⟩ := hfill
         subst hw0; subst hp0; subst hr0
         have hT0 : T = [] := by rw [← hT]; rfl
         subst hT0
-        simp only [alignStr, List.append_nil, loop_nil]
-      · obtain ⟨ac, hs, hac, hao⟩ := alignStr_spec align ha
-        simp only [hs, List.cons_append, List.nil_append, List.length_cons, List.length_nil] at htl ⊢
-        rw [loop_step _ _ _ _ _ _ _ _ _ _ (step_align _ g ac _ .alignment _ hac (Or.inl rfl))]
-        rw [htl .minWidth _ _ (by omega) (Or.inr rfl) rfl rfl rfl, hao]
-
+        simp only [optStr, alignStr, List.append_nil]
+        have hpc : preCheck (c :: d :: t) g g2 = none := by
+          apply preCheck_none
+          intro a ha
+          have : (c :: d :: t)[g]? = none := List.getElem?_eq_none (by simp [hg1])
+          simp [this] at ha
+        simp only [parse, hpc]
+        have hmax : max g 1 = (c :: d :: t).length := by simp [hg1]
+        have hdot : (c == 46 && !(d :: t).isEmpty) = false := by simp [hc46]
+        have hgen := step_generic (c :: d :: t) g c (d :: t) {} hpl (by simpa [headIs] using hda) hdot
+        rw [hmax] at hgen
+        simp only [List.take_length, List.drop_length] at hgen
+        have hlen : (c :: d :: t).length = (t.length + 1) + 1 := by simp
+        rw [hlen, loop_step _ _ _ _ _ _ _ _ _ _ hgen, loop_nil]
+      · -- a cluster in front of an alignment: the check in front of the loop takes it
+        have hg2' : g2 = 1 := by
+          rcases hg2 with h | h
+          · exact absurd h ha
+          · exact h
+        obtain ⟨ac, hs, hac, hao⟩ := alignStr_spec align ha
+        simp only [optStr, hs] at htl ⊢
+        have hidx : ((c :: d :: t) ++ [ac] ++ T)[g]? = some ac := by
+          rw [hg1, List.append_assoc]
+          rw [List.getElem?_append_right (by simp)]
+          simp
+        have htake : ((c :: d :: t) ++ [ac] ++ T).take g = c :: d :: t := by
+          rw [hg1, List.append_assoc]
+          have : t.length + 2 = (c :: d :: t).length := by simp
+          rw [this, List.take_left']
+          rfl
+        have hdrop : ((c :: d :: t) ++ [ac] ++ T).drop (g + 1) = T := by
+          rw [hg1]
+          have : t.length + 2 + 1 = ((c :: d :: t) ++ [ac]).length := by simp
+          rw [this, List.drop_left']
+          rfl
+        have hpc : preCheck ((c :: d :: t) ++ [ac] ++ T) g g2
+            = some ({ fill := some (c :: d :: t), align := alignOf ac }, T) := by
+          simp [preCheck, hg2', hidx, hac, htake, hdrop, hg1]
+        simp only [parse, hpc]
+        rw [htl .minWidth _ _ (by simp; omega) (Or.inr rfl) rfl rfl rfl, hao]
 
 /-! ## format options: everything `parse` returns is well-formed -/
 
@@ -694,8 +780,9 @@ def wfFill (o : Opts) : Bool :=
     else if c == 48 then o.minWidth.isSome
     else plainStart c && o.minWidth.isNone && o.precision.isNone && o.repr.isNone
   | some (c :: d :: _) =>
-    plainStart c && c != 46 && !isAlignCh d
-      && (o.align != .default || (o.minWidth.isNone && o.precision.isNone && o.repr.isNone))
+    if o.align != .default then true
+    else plainStart c && c != 46 && !isAlignCh d
+      && o.minWidth.isNone && o.precision.isNone && o.repr.isNone
 
 theorem wf_eq (o : Opts) : wf o = (bounds o && wfFill o) := rfl
 
@@ -750,9 +837,7 @@ theorem wfFill_align (o : Opts) (a : Align) (ha : a ≠ .default) (h : wfFill o 
   | none, _ => simp [wfFill]
   | some [], h => simp [wfFill] at h
   | some [c], _ => simp [wfFill, hb]
-  | some (c :: d :: t), h =>
-    simp only [wfFill, Bool.and_eq_true] at h ⊢
-    exact ⟨h.1, by simp [hb]⟩
+  | some (c :: d :: t), _ => simp [wfFill, hb]
 
 /-- with a non-default alignment the fill condition does not look at width/precision/representation -/
 theorem wfFill_congr_aligned (o o' : Opts) (hal : o.align ≠ .default) (ha : o'.align = o.align)
@@ -766,9 +851,7 @@ theorem wfFill_congr_aligned (o o' : Opts) (hal : o.align ≠ .default) (ha : o'
   | none, _ => simp [wfFill]
   | some [], h => simp [wfFill] at h
   | some [c], _ => simp [wfFill, hb]
-  | some (c :: d :: t), h =>
-    simp only [wfFill, Bool.and_eq_true] at h ⊢
-    exact ⟨h.1, by simp [hb]⟩
+  | some (c :: d :: t), _ => simp [wfFill, hb]
 
 
 theorem posIn_sa (pos : PPos) : posIn pos [.start, .alignment] = true ↔ pos = .start ∨ pos = .alignment := by
@@ -947,7 +1030,7 @@ theorem step_J (s : List Nat) (g next : Nat) (rest : List Nat) (pos pos' : PPos)
                           simp [hwn] at hws
                       | some (c :: d' :: t), hwf =>
                         simp [wfFill] at hwf
-                        obtain ⟨_, ⟨hwn, _⟩, _⟩ := hwf
+                        obtain ⟨⟨⟨_, hwn⟩, _⟩, _⟩ := hwf
                         simp [hwn] at hws
                   · exact wfFill_congr_aligned o _ hal rfl rfl hwf
               · rw [if_neg hd] at h
@@ -1002,7 +1085,7 @@ theorem step_J (s : List Nat) (g next : Nat) (rest : List Nat) (pos pos' : PPos)
                       simp [hwn] at hws
                   | some (c :: d' :: t), hwf =>
                     simp [wfFill] at hwf
-                    obtain ⟨_, ⟨hwn, _⟩, _⟩ := hwf
+                    obtain ⟨⟨⟨_, hwn⟩, _⟩, _⟩ := hwf
                     simp [hwn] at hws
                 · subst hp
                   obtain ⟨hps, _⟩ := hpf
@@ -1021,7 +1104,7 @@ theorem step_J (s : List Nat) (g next : Nat) (rest : List Nat) (pos pos' : PPos)
                       simp [hpn] at hps
                   | some (c :: d' :: t), hwf =>
                     simp [wfFill] at hwf
-                    obtain ⟨_, ⟨_, hpn⟩, _⟩ := hwf
+                    obtain ⟨⟨_, hpn⟩, _⟩ := hwf
                     simp [hpn] at hps
               · exact wfFill_congr_aligned o _ hal rfl rfl hwf
             · rw [if_neg c6] at h
@@ -1116,7 +1199,50 @@ theorem loop_J (s : List Nat) (g : Nat) : ∀ (fuel : Nat) (pos : PPos) (o : Opt
         exact ih pos' o1 r' o' (step_J s g c cs pos pos' o o1 r' hst hJ) h
 
 /-- Everything `parse` returns is well-formed. -/
-theorem parse_wf (s : List Nat) (g : Nat) (o : Opts) (h : parse s g = .ok o) : WF o :=
-  loop_J s g s.length .start {} s o ⟨bounds_default, ⟨rfl, rfl⟩, Or.inl wfFill_default⟩ h
+theorem parse_wf (s : List Nat) (g1 g2 : Nat) (o : Opts) (h : parse s g1 g2 = .ok o) : WF o := by
+  unfold parse at h
+  cases hpc : preCheck s g1 g2 with
+  | none =>
+    simp only [hpc] at h
+    exact loop_J s g1 s.length .start {} s o ⟨bounds_default, ⟨rfl, rfl⟩, Or.inl wfFill_default⟩ h
+  | some res =>
+    obtain ⟨o0, rest⟩ := res
+    simp only [hpc] at h
+    -- the pre-filled options: a non-empty fill and a non-default alignment
+    unfold preCheck at hpc
+    split at hpc
+    · rename_i hg
+      cases hs : s[g1]? with
+      | none => simp [hs] at hpc
+      | some a =>
+        simp only [hs] at hpc
+        split at hpc
+        · simp only [Option.some.injEq, Prod.mk.injEq] at hpc
+          obtain ⟨rfl, rfl⟩ := hpc
+          have hg1 : 1 ≤ g1 := by
+            simp only [Bool.and_eq_true, decide_eq_true_eq] at hg
+            exact hg.1
+          have hlen : g1 < s.length := by
+            rcases Nat.lt_or_ge g1 s.length with hc | hc
+            · exact hc
+            · have : s[g1]? = none := List.getElem?_eq_none hc
+              simp [this] at hs
+          have ha := alignOf_ne_default a
+          have hwfF : wfFill { fill := some (s.take g1), align := alignOf a } = true := by
+            have hb : (alignOf a != Align.default) = true := by simp [ha]
+            cases ht : s.take g1 with
+            | nil =>
+              have : (s.take g1).length = g1 := by simp [List.length_take]; omega
+              rw [ht] at this
+              simp at this
+              omega
+            | cons c tl =>
+              cases tl with
+              | nil => simp [wfFill, hb]
+              | cons d tl' => simp [wfFill, hb]
+          exact loop_J s g1 s.length .minWidth _ _ o
+            ⟨rfl, ⟨rfl, rfl, rfl, fun h => absurd h ha⟩, Or.inl hwfF⟩ h
+        · simp at hpc
+    · simp at hpc
 
 end KotoVerif.C11.Lemmas
